@@ -96,6 +96,10 @@ func nextPacket(r io.Reader) (*parser.Packet, error) {
 			expectedLen = int(l)
 			state = ReadPayload
 		case ReadPayload:
+			// Refuse a frame that declares more than the read limit before allocating a buffer for it.
+			if lr, ok := r.(*limitedReader); ok && lr.limit > 0 && int64(expectedLen) > lr.limit {
+				return nil, ErrLimitReached
+			}
 			return parser.DecodeWithLen(r, isBinary, expectedLen)
 		}
 	}
